@@ -436,8 +436,8 @@ class Sim:
 
         def uniform(a, b):
             sim.draws.append(('uniform', a, b))
-            # multiples of 1/1024 so that float arithmetic is exact
-            return a + sim.rng.randrange(0, int((b - a) * 1024) + 1) / 1024.0
+            # whole seconds, so that float arithmetic is exact and equals the model's integer arithmetic
+            return float(sim.rng.randint(int(a), int(b)))
 
         def randint(a, b):
             sim.draws.append(('randint', a, b))
